@@ -832,3 +832,26 @@ def grown_stage_emptied_on_failed_fill(ctx, P):
                       missing=None if wit is None else 'the error exit at %s is reached from the growth at %s with the buffer neither cleared nor the state replaced%s: the next read hands out the raw buffer'
                       % (site(b0, bad[0]), site(b0, g), '' if not wit[0][1] else ' (also past the call at %s in %s)' % (wit[0][1], wit[0][0].split('::')[-1])))
     ctx.floor(P + ':S09-10:floor', 'stage buffers of self grown before the source is read', n, 2)
+
+
+def finished_flag_set_after_the_writes(ctx, P):
+    """`finish()` of the line writer may be called again after it failed (it is also what `Drop` falls back to): the flag that makes
+    a later call return `Ok(())` at once must not be set while a write of the pending tail can still fail - otherwise the first call
+    reports the sink error, the retry reports success, and the tail was never written.  In every `finish` that has such a flag, no
+    error exit is reachable from the assignment `finished = true`."""
+    n = 0
+    for p, r in sorted(ctx.f.bodies.items()):
+        if '::tests::' in p or r.get('name') != 'finish' or r['nargs'] < 1:
+            continue
+        b = ctx.wrap(r)
+        sets = sorted(set(i for i, k, st in b.stmts(lambda st: st['d']['l'] == 1 and st['d']['pr'] and str(st['d']['pr'][-1]).endswith('.finished')
+                                                     and st['r']['k'] == 'use' and 'k' in st['r']['o'][0] and st['r']['o'][0]['k'].get('v') in (True, 1))))
+        errs = set(err_exit_blocks(b))
+        if not sets or not errs:
+            continue
+        n += 1
+        late = [m for m in sets if b.reach_from([m]) & errs]
+        ctx.check('%s:S09-11:finished-after-writes:%s' % (P, p), 'R-seq', '%s marks itself finished only when nothing can fail any more' % '::'.join(p.split('::')[-2:]),
+                  not late, function=p, site=site(b, late[0]) if late else None,
+                  missing=None if not late else 'an error exit is reachable after `finished = true` (%s): a retried finish() returns Ok without having written the tail' % site(b, late[0]))
+    ctx.floor(P + ':S09-11:floor', 'finish() functions with a finished flag and a fallible write', n, 1)
